@@ -66,6 +66,7 @@ func (fc *fnCtx) runAnchors(st *state, kind string, match func(arg string) bool,
 				g = fmt.Sprintf("(=> %s %s)", cond, t)
 			}
 			fc.assert(st, "at", "at."+c.anchor+"."+c.name(0), g, c.src, pos)
+			fc.assume(st, g) // an asserted fact may be used afterwards
 		case "at-assume":
 			g := t
 			if cond != "true" {
@@ -202,7 +203,17 @@ func (fc *fnCtx) execCall(st *state, ins ssa.Instruction, c *ssa.CallCommon, res
 	}
 	short, full := calleeShort(c)
 	if b, ok := c.Value.(*ssa.Builtin); ok {
-		setRes(fc.execBuiltin(st, ins, c, b, res))
+		bb := map[string]Val{}
+		if b.Name() == "len" || b.Name() == "cap" {
+			bb["$0"] = fc.val(c.Args[0])
+			fc.anchorNamed(st, "call", short, full, ins, bb, false)
+		}
+		rv := fc.execBuiltin(st, ins, c, b, res)
+		setRes(rv)
+		if (b.Name() == "len" || b.Name() == "cap") && len(rv) > 0 {
+			bb["$result"] = rv[0]
+			fc.anchorNamed(st, "call", short, full, ins, bb, true)
+		}
 		return
 	}
 	var args []Val
@@ -236,6 +247,10 @@ func (fc *fnCtx) execCall(st *state, ins ssa.Instruction, c *ssa.CallCommon, res
 		switch f := c.Value.(type) {
 		case *ssa.Function:
 			name = canonName(f)
+			if name == "sort.Slice" {
+				fc.sortSlice(st, c, ins)
+				return
+			}
 			blk = fc.e.db.funcs[name]
 			if blk != nil {
 				bindParams(bind, f, args)
@@ -394,6 +409,11 @@ func (fc *fnCtx) applyContract(st *state, blk *block, bind map[string]Val, sig *
 				_ = al
 			}
 		}
+		if blk.frozenRes && k == 0 {
+			if mt, ok := rt.Underlying().(*types.Map); ok {
+				fc.thaw(st, v, mt)
+			}
+		}
 		vals = append(vals, v)
 		b2[fmt.Sprintf("result%d", k)] = v
 		if n := sig.Results().At(k).Name(); n != "" && n != "_" {
@@ -482,6 +502,9 @@ func (fc *fnCtx) execBuiltin(st *state, ins ssa.Instruction, c *ssa.CallCommon, 
 		case *types.Basic:
 			return []Val{{T: fmt.Sprintf("(strlen %s)", x.T), S: "Int", Ty: types.Typ[types.Int]}}
 		case *types.Map:
+			if fmt_, ok := st.frozen[x.T]; ok {
+				fc.thaw(st, x, fmt_)
+			}
 			dom, _, ds, _ := fc.mapVars(t)
 			d := fmt.Sprintf("(select %s %s)", fc.heapVar(st, dom, ds), x.T)
 			n := fc.fresh("maplen", "Int")
@@ -538,14 +561,10 @@ func (fc *fnCtx) execBuiltin(st *state, ins ssa.Instruction, c *ssa.CallCommon, 
 		}
 		return []Val{r}
 	case "copy":
-		// copy(dst, src) where dst is the current value of a local: rebinding of that local
-		u, ok := c.Args[0].(*ssa.UnOp)
-		var cell *ssa.Alloc
-		if ok && u.Op == token.MUL {
-			cell, _ = u.X.(*ssa.Alloc)
-		}
-		if cell == nil || cell.Heap {
-			unsup("copy into a slice that is not a plain local (slice aliasing is not modelled)")
+		// copy(dst, src) where dst is the current value of a variable: rebinding of that variable
+		target := fc.rebindTarget(c.Args[0])
+		if target == nil {
+			unsup("copy into a slice that is not the value of a variable (slice aliasing is not modelled)")
 		}
 		dst, src := fc.val(c.Args[0]), fc.val(c.Args[1])
 		r := fc.freshVal(st, "cpy", c.Args[0].Type())
@@ -553,11 +572,13 @@ func (fc *fnCtx) execBuiltin(st *state, ins ssa.Instruction, c *ssa.CallCommon, 
 		fc.assume(st, fmt.Sprintf("(= (slen %s) (slen %s))", r.T, dst.T))
 		fc.assume(st, fmt.Sprintf("(forall ((q!i Int)) (=> (and (<= 0 q!i) (< q!i %s)) (= (select (sarr %s) q!i) (select (sarr %s) q!i))))", n, r.T, src.T))
 		fc.assume(st, fmt.Sprintf("(forall ((q!i Int)) (=> (and (<= %s q!i) (< q!i (slen %s))) (= (select (sarr %s) q!i) (select (sarr %s) q!i))))", n, dst.T, r.T, dst.T))
-		fc.store(st, &Addr{kind: aCell, cell: cell, typ: cell.Type().(*types.Pointer).Elem()}, r)
-		fc.linearCells[cell] = true
+		fc.store(st, target, r)
 		return []Val{{T: n, S: "Int"}}
 	case "delete":
 		m, k := fc.val(c.Args[0]), fc.val(c.Args[1])
+		if _, ok := st.frozen[m.T]; ok {
+			unsup("delete from a frozen (immutable) map")
+		}
 		mt := c.Args[0].Type().Underlying().(*types.Map)
 		// delete on a nil map is a no-op
 		dom, _, ds, _ := fc.mapVars(mt)
@@ -578,4 +599,43 @@ func (fc *fnCtx) execBuiltin(st *state, ins ssa.Instruction, c *ssa.CallCommon, 
 	}
 	unsup("builtin %s", b.Name())
 	return nil
+}
+
+// rebindTarget: the variable whose current value v is (through a load, possibly boxed).
+func (fc *fnCtx) rebindTarget(v ssa.Value) *Addr {
+	for {
+		switch x := v.(type) {
+		case *ssa.MakeInterface:
+			v = x.X
+			continue
+		case *ssa.UnOp:
+			if x.Op == token.MUL {
+				if a, ok := x.X.(*ssa.Alloc); ok {
+					return fc.asAddr(a)
+				}
+			}
+		}
+		return nil
+	}
+}
+
+// sortSlice models sort.Slice(x, less) (assumed library contract, hard-wired):
+// the variable holding x is rebound to a permutation of its old value.
+func (fc *fnCtx) sortSlice(st *state, c *ssa.CallCommon, ins ssa.Instruction) {
+	target := fc.rebindTarget(c.Args[0])
+	if target == nil {
+		unsup("sort.Slice on a slice that is not the value of a variable")
+	}
+	old := fc.load(st, target)
+	r := fc.freshVal(st, "sorted", target.typ)
+	fc.nfresh++
+	pi, pinv := fmt.Sprintf("perm!%d", fc.nfresh), fmt.Sprintf("perminv!%d", fc.nfresh)
+	fc.decls = append(fc.decls, fmt.Sprintf("(declare-fun %s (Int) Int)", pi), fmt.Sprintf("(declare-fun %s (Int) Int)", pinv))
+	fc.assume(st, fmt.Sprintf("(= (slen %s) (slen %s))", r.T, old.T))
+	fc.assume(st, fmt.Sprintf("(forall ((q!i Int)) (! (=> (and (<= 0 q!i) (< q!i (slen %s))) (and (<= 0 (%s q!i)) (< (%s q!i) (slen %s)) (= (select (sarr %s) q!i) (select (sarr %s) (%s q!i))) (= (%s (%s q!i)) q!i))) :pattern ((select (sarr %s) q!i))))",
+		r.T, pi, pi, r.T, r.T, old.T, pi, pinv, pi, r.T))
+	fc.assume(st, fmt.Sprintf("(forall ((q!j Int)) (! (=> (and (<= 0 q!j) (< q!j (slen %s))) (and (<= 0 (%s q!j)) (< (%s q!j) (slen %s)) (= (select (sarr %s) (%s q!j)) (select (sarr %s) q!j)) (= (%s (%s q!j)) q!j))) :pattern ((select (sarr %s) q!j))))",
+		r.T, pinv, pinv, r.T, r.T, pinv, old.T, pi, pinv, old.T))
+	fc.store(st, target, r)
+	fc.trusted["sort.Slice: the slice variable is rebound to a permutation of its old value (order not modelled)"] = true
 }
